@@ -1,0 +1,37 @@
+//go:build verif
+// +build verif
+
+package filetracker
+
+import iradix "github.com/hashicorp/go-immutable-radix"
+
+// Verification hooks (build tag verif): expose the package-internal write tracker to the model checker in /verif.
+
+// VerifNew returns a tracked file with an empty tracker and no backing stores.
+func VerifNew() *TFile {
+	return &TFile{tracker: iradix.New()}
+}
+
+// VerifTrackWrite records a write of length bytes at offset.
+func (t *TFile) VerifTrackWrite(offset, length int64) { t.trackWrite(offset, length) }
+
+// VerifRange returns the contiguous range readable from offset and whether it comes from the mutable layer.
+func (t *TFile) VerifRange(offset, length int64) (int64, bool) {
+	return t.getRangeToRead(offset, length)
+}
+
+// VerifMarker is one marker of the tracker.
+type VerifMarker struct {
+	Offset int64
+	Start  bool
+}
+
+// VerifMarkers dumps the markers in key order.
+func (t *TFile) VerifMarkers() []VerifMarker {
+	var out []VerifMarker
+	t.tracker.Root().Walk(func(k []byte, v interface{}) bool {
+		out = append(out, VerifMarker{Offset: getOffset(k), Start: v.(bool)})
+		return false
+	})
+	return out
+}
